@@ -440,6 +440,9 @@ class Walker:
                 for change in path_changes:
                     from .diff_tree import TreeChange
 
+                    if change is None:
+                        # No change relative to this parent.
+                        continue
                     assert isinstance(change, TreeChange)
                     if self._change_matches(change):
                         return True
